@@ -21,7 +21,11 @@ Inductive case :=
 (* handleSignatureRequest (server = true) / handleSignatureResponse on a peer whose
    wait info is `wait` and session secret `extra`, packet sub protocol `sub` *)
 | CHandle (server : bool) (self : bytes) (wait : option (N * bool)) (sub : N) (extra : bytes) (m : inmsg) (t : truth)
-          (obs_closed obs_next : bool) (obs_id : option bytes) (obs_resp : option bool).
+          (obs_closed obs_next : bool) (obs_id : option bytes) (obs_resp : option bool)
+(* the handshake public keys one Authenticator sent in successive sessions
+   (accepting side: SecureResponse.SecureParam, dialling side: SecureRequest.SecureParam)
+   and the session secrets it derived; the other end supplied `supplied` *)
+| CFresh (own_keys : list bytes) (supplied : list bytes) (extras : list bytes).
 
 Section INST.
   Variables (pub content : bytes) (t : truth).
@@ -66,6 +70,9 @@ Definition check (c : case) : bool :=
         let p' := on_sigresp bytes (iH extra t) (iparse pub t) (fun u => u) (iverify t) p m in
         Bool.eqb (p_closed p') oclosed && Bool.eqb (p_next p') onext && obytes_eqb (p_id p') oid && obool_eqb None oresp
       else false
+  | CFresh own _ extras =>
+      (* newSecureKey per session: keys pairwise different, hence secrets pairwise different *)
+      nodup_bytes own && nodup_bytes extras
   end.
 
 Definition mismatches (l : list case) : list nat := failing check l.
